@@ -52,7 +52,87 @@ def _cargo_toml(extra_cfgs=()):
     return txt
 
 
-def make_mirror(dest, harness_mods, cfg="kani", top_mod=None, extra_lib_lines=()):
+ORACLE_MOD = r'''
+/// Injected by /verif/lib/mirror.py into the COPY of lib.rs (never into /repo): the "arbitrary deterministic
+/// engine" table shared by the harnesses that stub `try_at_pos` (C09, C17, C20).  END[offset] = None: no match
+/// at that offset; Some(e): a match ending at byte offset e.  usize::MAX-like poison marks offsets that correct
+/// code never queries.
+#[cfg(kani)]
+#[allow(dead_code, static_mut_refs)]
+pub(crate) mod verif_oracle {
+    use crate::indexing::InputIndexer;
+    pub const SLOTS: usize = 17;
+    pub const POISON: usize = 1000;
+    pub static mut VERIF_ORACLE_END: [Option<usize>; SLOTS] = [Some(POISON); SLOTS];
+    pub static mut VERIF_ORACLE_HAYLEN: usize = 0;
+    pub static mut VERIF_ORACLE_CALLS_OK: bool = true;
+    pub static mut VERIF_ORACLE_ACTIVE: bool = false;
+
+    pub fn lookup<I: InputIndexer>(inp: &I, pos: I::Position) -> Option<I::Position> {
+        let off = inp.pos_to_offset(pos);
+        unsafe {
+            if inp.right_end() - inp.left_end() != VERIF_ORACLE_HAYLEN {
+                VERIF_ORACLE_CALLS_OK = false;
+            }
+            match VERIF_ORACLE_END[off] {
+                None => None,
+                Some(e) => match inp.try_move_right(inp.left_end(), e) {
+                    Some(p) => Some(p),
+                    None => {
+                        VERIF_ORACLE_CALLS_OK = false;
+                        None
+                    }
+                },
+            }
+        }
+    }
+}
+'''
+
+# playback only: route the real try_at_pos through the same table (Kani does not apply #[kani::stub] to
+# concrete playback tests, so without this a counterexample of a stubbed harness could not be replayed)
+HOOK_BT = '''
+        #[cfg(kani)]
+        if unsafe { crate::verif_oracle::VERIF_ORACLE_ACTIVE } {
+            if ip != 0 || self.bts.len() != 1 {
+                unsafe { crate::verif_oracle::VERIF_ORACLE_CALLS_OK = false; }
+            }
+            return crate::verif_oracle::lookup(&inp, pos);
+        }
+'''
+HOOK_PIKE = '''
+        #[cfg(kani)]
+        if unsafe { crate::verif_oracle::VERIF_ORACLE_ACTIVE } {
+            if init_state.ip != 0 {
+                unsafe { crate::verif_oracle::VERIF_ORACLE_CALLS_OK = false; }
+            }
+            return match crate::verif_oracle::lookup(&input, init_state.pos) {
+                Some(p) => {
+                    init_state.pos = p;
+                    true
+                }
+                None => false,
+            };
+        }
+'''
+
+
+def _insert_hook(body, hook):
+    """Insert `hook` as the first statements of `fn try_at_pos<Dir: Direction>(...)`.  Returns (text, ok)."""
+    m = re.search(r"fn try_at_pos<Dir: Direction>\(", body)
+    if not m:
+        return body, False
+    # the body starts at the first '{' that follows the closing ')' of the parameter list at depth 0
+    i = m.end()
+    depth = 1
+    while i < len(body) and depth:
+        depth += {"(": 1, ")": -1}.get(body[i], 0)
+        i += 1
+    j = body.index("{", i)
+    return body[:j + 1] + hook + body[j + 1:], True
+
+
+def make_mirror(dest, harness_mods, cfg="kani", top_mod=None, extra_lib_lines=(), playback_hook=False):
     """Create the mirror crate in `dest`.
 
     harness_mods: dict module_name (e.g. "api") -> absolute path of the harness file that
@@ -81,7 +161,13 @@ def make_mirror(dest, harness_mods, cfg="kani", top_mod=None, extra_lib_lines=()
         mod = name[:-3]
         if mod in harness_mods:
             body += '\n#[cfg(%s)]\n#[path = "%s"]\nmod %s;\n' % (cfg, harness_mods[mod], "verif_top" if mod == "lib" else "verif_h")
+        if playback_hook and mod == "classicalbacktrack":
+            body, ok = _insert_hook(body, HOOK_BT)
+        if playback_hook and mod == "pikevm":
+            body, ok = _insert_hook(body, HOOK_PIKE)
         if mod == "lib":
+            if cfg == "kani":
+                body += ORACLE_MOD
             if top_mod:
                 body += '\n#[cfg(%s)]\n#[path = "%s"]\npub mod verif_top;\n' % (cfg, top_mod)
             for line in extra_lib_lines:
